@@ -121,12 +121,17 @@ def build(c):
         # one statistics report while the clients that are about to leave are still connected
         # (P sends a request in that round: the manager refreshes its writability snapshot only in rounds with input)
         steps += [["sub", "P", 556], ["round", {"only": ["P"], "adv": 1.5}], ["drain", {"adv": 0.001}]]
+    if c["trigger"] == "hello":
+        # the third party of the round is a newcomer with an explicit id and a name (accepted in a round of its own first)
+        steps += [["open", "N"], ["round", {"only": []}]]
     steps += leaves
     if c["trigger"] == "pub":
         steps.append(["pub", "P", T, 0, 0, 16])
+    elif c["trigger"] == "hello":
+        steps.append(["hello", "N", {"mod_id": 40, "name": "newcomer", "v2": True, "pid": 4040}])
     else:
         steps.append(["sub", "P", 555])
-    labels = ["P"] + [L for L, *_ in deps if L not in excluded]
+    labels = ["N" if c["trigger"] == "hello" else "P"] + [L for L, *_ in deps if L not in excluded]
     perm = list(itertools.permutations(labels))[c["perm"] % len(list(itertools.permutations(labels)))]
     # (some departing clients have fallen behind: the writability snapshot of the round in which they leave does not list them)
     steps.append(["round", {"only": labels, "order": list(perm), "adv": 0.001, "nw": [L for L, idn, name, d in deps if d.get("nw") and L not in excluded]}])
@@ -181,6 +186,12 @@ def gen_cases(tier, seed):
     for s, w in singles:
         for trig in ("pub", "ctl"):
             add({"d1": {"stage": s, "way": w, "off": 20}, "trigger": trig})
+    # a named newcomer's handshake in the round of the departure, the manager publishing its log messages (INFO / DEBUG):
+    # whatever the handshake makes the manager say reaches - or fails to reach - the departing subscriber
+    for s in ("suball", "logger", "sub", "sub_pauseall"):
+        for w in ("rst", "write", "fin", "disc", "frame_rst"):
+            for lvl in (1, 2):
+                add({"d1": {"stage": s, "way": w, "off": 20}, "trigger": "hello", "loudlevel": lvl})
     # the same departures by a client that is not in the round's writability snapshot (it has fallen behind)
     for s, w in singles:
         if w != "write" and not w.startswith("refused"):
@@ -214,7 +225,7 @@ def gen_cases(tier, seed):
 
 
 def run_case(case, tier):
-    rig = ManagerRig(stepped=True, timecode=bool(case.get("tc")), loud=bool(case.get("n", 0) % 4 == 2))   # every fourth case: the manager publishes its own log messages
+    rig = ManagerRig(stepped=True, timecode=bool(case.get("tc")), loud=case.get("loudlevel") or bool(case.get("n", 0) % 4 == 2))   # every fourth case: the manager publishes its own log messages
     try:
         sc = Scenario(rig, 0)
         steps = build(case)
